@@ -11,6 +11,7 @@ From QV.Str Require StrModel StrSpec.
 From QV.Base Require Word.
 From QV.HashFn Require FnvModel MurmurModel Md5Model FnvSpec MurmurSpec Md5Spec.
 From QV.Seq Require VectorModel VectorSpec.
+From QV.Alloc Require Ledger Scripts.
 Extraction Blacklist List String Int.
 Extraction "../ocaml/gen/enc_model.ml" Res.num_anchor
    EncModel.url_encode EncModel.url_dec_buf EncModel.url_decode EncModel.hex_encode EncModel.hex_dec_buf EncModel.hex_decode
@@ -31,3 +32,6 @@ Extraction "../ocaml/gen/hashfn_model.ml" Res.num_anchor
    FnvSpec.fnv1_32 FnvSpec.fnv1_64 MurmurSpec.murmur3_x86_32 MurmurSpec.murmur3_x64_128 Md5Spec.md5 Word.le_bytes.
 Extraction "../ocaml/gen/vec_model.ml" Res.num_anchor
    VectorModel.vnew VectorModel.vstep VectorSpec.vsstep.
+Extraction "../ocaml/gen/alloc_model.ml" Res.num_anchor
+   Ledger.ledger0 Ledger.safeb Ledger.run Scripts.gblocks Scripts.vblocks Scripts.script_ctor Scripts.script_qhashtbl Scripts.script_wrapper Scripts.script_qhasharr
+   Scripts.script_qvector Scripts.tree_step Scripts.hash_step Scripts.ltbl_step Scripts.list_step Scripts.harr_step Scripts.vec_step Scripts.script_free Scripts.script_vec_free.
